@@ -2013,6 +2013,16 @@ def pool(qn, nsp, kind, with_indices=False):
             pd = [1] * nsp
             if v == "padding":
                 return [x, k, st, pd], {}
+            # per-axis arguments that differ between the spatial axes (ONNX lays pads out as all-begins-then-all-ends,
+            # torch per axis; a symmetric argument cannot tell the two layouts apart)
+            if v == "padding-asym-10":
+                return [x, [3] * nsp, [1] * nsp, [1] + [0] * (nsp - 1)], {}
+            if v == "padding-asym-01":
+                return [x, [3] * nsp, st, [0] * (nsp - 1) + [1]], {}
+            if v == "asym-all":
+                return [x, [3, 2][:nsp], [2, 1][:nsp], [1, 0][:nsp]], {}
+            if v == "asym-no-include-pad":
+                return [x, [2, 3][:nsp], [1, 2][:nsp], [0, 1][:nsp], False, False], {}
             if kind == "max":
                 if v == "dilation":
                     return [x, k, st, [0] * nsp, [2] * nsp], {}
@@ -2035,6 +2045,7 @@ def pool(qn, nsp, kind, with_indices=False):
         return b
 
     vs = ["kernel-only", "stride", "stride=[]", "padding", "unbatched", "ceil_mode", "ceil_mode-padding"] + \
+         (["padding-asym-10", "padding-asym-01", "asym-all"] + ([] if kind == "max" else ["asym-no-include-pad"]) if nsp >= 2 else []) + \
          (["dilation"] if kind == "max" else ["count_include_pad=False", "ceil-no-include-pad"] + (["divisor_override"] if nsp >= 2 else []))
     for dt in dts:
         yield S(f"kernel-only/{dt}", mk(dt, "kernel-only"), scale=4.0)
